@@ -175,6 +175,35 @@ Theorem C12_sparse_layout : forall F ext,
 Proof. exact layout_ranges_ok. Qed.
 Print Assumptions C12_sparse_layout.
 
+(* The ranges request/reply loop from ANY start offset: for every extent list, every batch size
+   K >= 1 and every start offset, the concatenation of the replies the client collects (asking again
+   from the end of the last range until the server says at_end or answers EOF) is exactly the list
+   of the file's data ranges from that offset. *)
+Theorem C12_ranges_paging_from : forall (K : nat) ext size off, (1 <= K)%nat -> ext_wf 0 size ext = true ->
+  client_ranges (S (length ext)) (server_ranges K ext) off (size - off) size = req_ranges ext off size.
+Proof.
+  intros K ext size off HK Hwf. apply (client_ranges_paging K ext 0 size HK Hwf).
+  pose proof (req_ranges_length ext off size). lia.
+Qed.
+Print Assumptions C12_ranges_paging_from.
+
+(* Open dispositions: for every pflags value (six defined bits), every SFTP version and whatever the
+   path holds, a v5/v6 session (client _pflags_to_flags, server open56) opens the file with the same
+   effect as a v3 session (server open). *)
+Theorem C12_open_version_independent : forall version pflags existing, 0 <= pflags < 64 ->
+  posix_open (session_open version pflags) existing = posix_open (server_open_v3 pflags) existing.
+Proof. exact session_open_version_independent. Qed.
+Print Assumptions C12_open_version_independent.
+
+(* A destination opened with mode 'wb' (every get/put/copy destination, open('wb')) is empty before
+   the first write in every SFTP version, whether it did not exist or held anything (shorter, equal,
+   longer).  This is the initial state ([], nothing copied) the copier theorems start from: a normal
+   return of a whole-file transfer leaves exactly the source bytes, no stale tail. *)
+Theorem C12_open_w_empties : forall version existing,
+  posix_open (session_open version PFLAGS_W) existing = Some [].
+Proof. exact open_w_empties. Qed.
+Print Assumptions C12_open_w_empties.
+
 (* Remote sparse files: whatever the number K >= 1 of ranges the server returns per reply, the
    client-side iteration yields exactly the ranges of the file. *)
 Theorem C12_ranges_paging : forall (K : nat) ext size, (1 <= K)%nat -> ext_wf 0 size ext = true ->
